@@ -216,9 +216,11 @@ class Task(NamedUIDObject):
         list_of_z3_assertions = list_of_z3_assertions + self._release_due_assertions
         if self.optional:  # in this case the previous assertions maybe skipped
             self._scheduled = z3.Bool(f"{self.name}_scheduled")
-            # the first task is moved to -1, the second to -2
-            # etc.
-            point_in_past = -self._task_number
+            # the first task is moved to -1, the second to -3 etc.: odd values only,
+            # the even ones are used by get_unique_negative_integer. Otherwise an
+            # unscheduled task and an unselected worker may share the same date, which
+            # the constraints that need all dates to be distinct cannot satisfy.
+            point_in_past = -(2 * self._task_number - 1)
             if isinstance(self, VariableDurationTask):
                 not_scheduled_assertion = z3.And(
                     self._start == point_in_past,  # to past
